@@ -6,7 +6,7 @@ use watchexec_supervisor::{command::{Command, Program}, job::{start_job, Command
 use watchexec_signals::Signal;
 
 #[derive(Debug, Clone, Copy, PartialEq)]
-enum Beh { ExitsAfter(u64), ExitsAfterSignal(u64), Ignores, SpawnFails }
+enum Beh { ExitsAfter(u64), ExitsAfterSignal(u64), Ignores, SpawnFails, KillFails(u64), SignalFails }
 
 #[derive(Debug)]
 struct Shared { t0: Instant, log: Mutex<Vec<(u128, String)>>, n: Mutex<usize>, behs: Vec<Beh> }
@@ -28,7 +28,7 @@ impl TokioCommandWrapper for SimWrapper {
         let id = *n; *n += 1;
         let beh = self.0.beh_at(id);
         self.0.log(format!("spawn:c{id}"));
-        let exit_at = match beh { Beh::ExitsAfter(ms) => Some(Instant::now() + Duration::from_millis(ms)), _ => None };
+        let exit_at = match beh { Beh::ExitsAfter(ms) => Some(Instant::now() + Duration::from_millis(ms)), Beh::KillFails(ms) if ms > 0 => Some(Instant::now() + Duration::from_millis(ms)), _ => None };
         Ok(Box::new(SimChild { inner, id, beh, sh: self.0.clone(), exit_at: Mutex::new(exit_at), status: Mutex::new(0), wake: Arc::new(Notify::new()), reaped: false }))
     }
 }
@@ -41,10 +41,13 @@ impl TokioChildWrapper for SimChild {
     fn into_inner(self: Box<Self>) -> Child { unimplemented!() }
     fn id(&self) -> Option<u32> { Some(100_000 + self.id as u32) }
     fn start_kill(&mut self) -> Result<()> {
+        // fault injection (scripts of the `job-faults` stream only): kill() fails and the child lives on — for ever (K0) or until it exits by itself
+        if let Beh::KillFails(_) = self.beh { if self.exit_at.lock().unwrap().map(|t| t > Instant::now()).unwrap_or(true) { self.sh.log(format!("killfail:c{}", self.id)); return Err(std::io::Error::other("injected kill failure")); } }
         self.sh.log(format!("kill:c{}", self.id));
         *self.exit_at.lock().unwrap() = Some(Instant::now()); *self.status.lock().unwrap() = 9; self.wake.notify_waiters(); Ok(())
     }
     fn signal(&self, sig: i32) -> Result<()> {
+        if self.beh == Beh::SignalFails { self.sh.log(format!("signalfail:c{}:{sig}", self.id)); return Err(std::io::Error::other("injected signal failure")); }
         self.sh.log(format!("signal:c{}:{sig}", self.id));
         if let Beh::ExitsAfterSignal(ms) = self.beh {
             let mut e = self.exit_at.lock().unwrap();
@@ -199,7 +202,7 @@ fn main() {
     for line in stdin.lock().lines() {
         let line = line.unwrap(); let f: Vec<&str> = line.split(' ').collect();
         if f.len() != 3 { writeln!(o, "bad-line").unwrap(); continue; }
-        let behs: Vec<Beh> = f[1].split(',').map(|b| match b.as_bytes()[0] { b'E' => Beh::ExitsAfter(b[1..].parse().unwrap()), b'S' => Beh::ExitsAfterSignal(b[1..].parse().unwrap()), b'F' => Beh::SpawnFails, _ => Beh::Ignores }).collect();
+        let behs: Vec<Beh> = f[1].split(',').map(|b| match b.as_bytes()[0] { b'E' => Beh::ExitsAfter(b[1..].parse().unwrap()), b'S' => Beh::ExitsAfterSignal(b[1..].parse().unwrap()), b'F' => Beh::SpawnFails, b'K' => Beh::KillFails(b[1..].parse().unwrap_or(0)), b'G' => Beh::SignalFails, _ => Beh::Ignores }).collect();
         let ops: Vec<String> = f[2].split(';').map(|s| s.to_string()).collect();
         let rt = tokio::runtime::Builder::new_current_thread().enable_all().start_paused(true).build().unwrap();
         let res = rt.block_on(run_case(behs, ops));
